@@ -259,27 +259,28 @@ theorem sessionStep_tracks (env : Env C I M S O) (st : Layer M) (cur : Option C)
       (sessionStep env st op).2 = (specStep env cur op).2 := by
   cases op with
   | setCircuit c =>
-    unfold sessionStep specStep
     cases hc : env.compile c with
-    | error e => exact ⟨h, rfl⟩
-    | ok u => exact ⟨⟨u, hc, rfl⟩, rfl⟩
+    | error e => simp only [sessionStep, specStep, hc]; exact ⟨h, trivial⟩
+    | ok u => simp only [sessionStep, specStep, hc]; exact ⟨⟨u, hc, rfl⟩, trivial⟩
   | probs i =>
-    unfold sessionStep specStep answer
     cases hp : env.prepare i with
-    | error e => exact ⟨h, rfl⟩
+    | error e => simp only [sessionStep, specStep, answer, hp]; exact ⟨h, trivial⟩
     | ok sp =>
       obtain ⟨s, p⟩ := sp
       cases cur with
       | none =>
         have hu : st.upol = none := h
-        simp only [hu]
-        exact ⟨h, rfl⟩
+        simp only [sessionStep, specStep, answer, hp, hu]
+        exact ⟨h, trivial⟩
       | some c =>
         obtain ⟨u, hc, hu⟩ := h
-        simp only [hu, hc]
         cases hw : env.mkUnitary u p with
-        | error e => exact ⟨⟨u, hc, hu⟩, rfl⟩
-        | ok w => exact ⟨⟨u, hc, hu⟩, rfl⟩
+        | error e =>
+          simp only [sessionStep, specStep, answer, hp, hu, hc, hw]
+          exact ⟨⟨u, hc, hu⟩, trivial⟩
+        | ok w =>
+          simp only [sessionStep, specStep, answer, hp, hu, hc, hw]
+          exact ⟨⟨u, hc, rfl⟩, by simp⟩
 
 end Session
 
